@@ -86,20 +86,11 @@ func runCase(outer *testing.T) func(t rapid.TB, c mcase, rec *vx.Case) {
 			rec.Add("trials", 1)
 			rec.Class("target-ack:%s", ackClass(x, j))
 			envLabels := tc.applyEnv(tr.Muts)
-			m := m0.clone()
-			labels := append([]string{}, envLabels...)
-			for _, mu := range tr.Muts {
-				if isEnv(mu.K) {
-					continue
-				}
-				lab := tc.apply(m, mu)
-				if lab == "" {
-					rec.Add("mut_inapplicable", 1)
-					continue
-				}
-				labels = append(labels, lab)
+			env := len(envLabels) > 0
+			if env {
+				rec.Add("env_trials", 1)
 			}
-			for _, lab := range labels {
+			noteLabel := func(lab string) {
 				kind := lab
 				if i := strings.IndexByte(lab, '.'); i > 0 {
 					kind = lab[:i]
@@ -107,61 +98,73 @@ func runCase(outer *testing.T) func(t rapid.TB, c mcase, rec *vx.Case) {
 				rec.Class("mut:%s|%s", kind, lk)
 				rec.Class("var:%s", lab)
 			}
-			sort.Strings(labels)
-			keyParts = append(keyParts, strings.Join(labels, "+"))
-			env := len(envLabels) > 0
-			if env {
-				rec.Add("env_trials", 1)
+			for _, lab := range envLabels {
+				noteLabel(lab)
 			}
-			consumed := false
-			if m.equalWire(m0) && !env {
-				rec.Add("identity_mutations", 1)
-				rec.Class("outcome:identity")
-			} else {
+			// the message mutations are applied cumulatively: message k carries mutations 1..k
+			m := m0.clone()
+			labels := append([]string{}, envLabels...)
+			consumed, forbidden := false, 0
+			var msgMuts []mut
+			for _, mu := range tr.Muts {
+				if !isEnv(mu.K) {
+					msgMuts = append(msgMuts, mu)
+				}
+			}
+			for k := 0; k <= len(msgMuts) && !consumed; k++ {
+				if k == 0 {
+					if !env {
+						continue // nothing mutated yet
+					}
+				} else {
+					lab := tc.apply(m, msgMuts[k-1])
+					if lab == "" {
+						rec.Add("mut_inapplicable", 1)
+						continue
+					}
+					noteLabel(lab)
+					labels = append(labels, lab)
+					if m.equalWire(m0) && !env {
+						rec.Add("identity_mutations", 1)
+						rec.Class("outcome:identity")
+						continue
+					}
+				}
 				rec.Add("mutated_submitted", 1)
-				acc, v := x.submit(t, m, tc.vc, "mutated "+strings.Join(labels, "+"))
+				acc, v := x.submit(t, m.clone(), tc.vc, "mutated "+strings.Join(labels, "+"))
 				switch {
 				case v != "" && !acc:
 					rec.Add("mutated_rejected", 1)
 					rec.Class("forbidden-by:%s", v)
+					forbidden++
 				case v == "" && acc:
 					rec.Add("neutral_accepted", 1)
 					rec.Class("outcome:neutral-accepted")
 					consumed = true
+					if k == 0 {
+						rec.Add("env_control_accepted", 1)
+						rec.Class("env-control-accepted:%s|%s", strings.Join(envLabels, "+"), lk)
+					}
 				case v == "":
 					rec.Add("neutral_rejected", 1)
 					rec.Class("outcome:neutral-rejected")
 				}
-				if v != "" {
-					// control: the unmutated message right afterwards
-					if !env {
-						acc0, v0 := x.submit(t, m0, tc.vc, "control")
-						if acc0 {
-							consumed = true
-							rec.Add("control_ok", 1)
-							binding++
-						} else {
-							rec.Add("control_failed", 1)
-							rec.Class("control-failed:%s", v0)
-						}
-					} else {
-						acc0, v0 := x.submit(t, m0, tc.vc, "control under environment mutation")
-						if acc0 {
-							consumed = true
-							rec.Add("env_control_accepted", 1)
-							rec.Class("env-control-accepted:%s|%s", strings.Join(envLabels, "+"), lk)
-						} else {
-							rec.Add("env_control_rejected", 1)
-						}
-						_ = v0
-						binding++
-					}
-				}
 			}
-			if !consumed && !env {
-				// make progress: consume the packet honestly so that the next trial targets another one
-				if acc0, _ := x.submit(t, m0, tc.vc, "control"); acc0 {
+			sorted := append([]string{}, labels...)
+			sort.Strings(sorted)
+			keyParts = append(keyParts, strings.Join(sorted, "+"))
+			// control: the unmutated message right afterwards
+			if env {
+				binding += forbidden // the honest message was valid before the environment mutation (checked above)
+			} else if !consumed {
+				acc0, v0 := x.submit(t, m0, tc.vc, "control")
+				if acc0 {
 					consumed = true
+					rec.Add("control_ok", 1)
+					binding += forbidden
+				} else {
+					rec.Add("control_failed", 1)
+					rec.Class("control-failed:%s", v0)
 				}
 			}
 			if consumed {
@@ -171,10 +174,10 @@ func runCase(outer *testing.T) func(t rapid.TB, c mcase, rec *vx.Case) {
 					x.acked[p.Idx] = true
 				}
 			}
-			if env || !consumed {
-				_ = ti
+			if env {
 				break
 			}
+			_ = ti
 		}
 		rec.Add("packets", int64(len(x.w.Pkts)))
 		rec.NonTrivialIf(binding >= 1)
